@@ -397,7 +397,7 @@ MANIFEST_TEXT = {
  'C03': dict(
     text='Lean theorems: lifetime = (v mod 2^32 + 3600) mod 2^32 is finite and >= v for v in 1s..10y (sharp: wraps to 0 at 2^32-3600); the private key and every certificate add carry that lifetime, the same key and the certificate label; '
          'identities without the handler label (near-miss comments included) survive AddCertsToAgent whether it succeeds or fails at any request (induction over refresh and add loops); a run in which nobody authenticates leaves every identity. '
-         'Generation replacement and usability are checked on the real agent by correspondence (final identity sets).',
+         'After a successful run (c03_run_success) every certificate the CA returned is in the agent stored with the new private key under the label and lifetime (c03_success_stores), every labelled identity left is one of this run (c03_one_generation: at most one generation), and a run failing in generation or at the CA keeps every identity (c03_failed_signing_keeps). Also checked on the real agent by the statement clauses of Spec/Gensign.',
     design_ref='DESIGN.md §7 C03',
     note=_NOTE + 'x/crypto keyring semantics for the requester agent.',
     technique='Lean 4 proof (arithmetic, induction over the refresh/add loops) + correspondence on agent contents'),
